@@ -311,8 +311,23 @@ def run(repo, chk):
                    "store_results_in_network, path %s: the last value stored to node._leak_demand" % sorted(conds.items()), expected=want, found=got)
     chk.floor("R-C08-6", 5)
 
+    # ---------------------------------------------------------------- R-C08-7 the leak window starts over with every reset
+    # "active exactly from start_time until end_time": a run leaves the switch on when the leak is still open at the end; reset_initial_values
+    # must switch it off for every node kind that can carry a leak, or a rerun leaks from t = 0
+    from .c11 import reset_table
+    rsf, rtab = reset_table(repo)
+    chk.fn(rsf)
+    leak_kinds = [cn for cn in ("Junction", "Tank", "Reservoir") if any(isinstance(n, ast.FunctionDef) and n.name == "add_leak" for n in repo.cls(ELEM, cn).body)]
+    for cn in leak_kinds:
+        chk.expect(rtab.get(cn, {}).get("_leak_status") == "False", "R-C08-7", "reset_initial_values switches the leak of every %s off" % cn, loc(rsf),
+                   "%s.add_leak exists, so a run can end with _leak_status True; without the reset the next run discharges before start_time" % cn,
+                   expected="%s._leak_status = False" % cn, found=rtab.get(cn, {}).get("_leak_status"))
+    chk.floor("R-C08-7", 2)
+
 
 WITNESSES = [
+    dict(name="tank-leak-survives-reset", file="wntr/network/model.py", old="            node._prev_head = node.head\n            node._demand = None\n            node._leak_demand = None\n            node._leak_status = False\n",
+         new="            node._prev_head = node.head\n            node._demand = None\n            node._leak_demand = None\n", rule="R-C08-7"),
     dict(name="isolated-junction-keeps-stale-leak", file="wntr/sim/hydraulics.py", old="            node._pressure = 0\n            node._leak_demand = 0\n", new="            node._pressure = 0\n", rule="R-C08-6"),
     dict(name="drop-2g", file=CON, old="con.add_final_expr(leak_rate - Cd*area*(2.0*9.81*(h-elev))**0.5)", new="con.add_final_expr(leak_rate - Cd*area*(9.81*(h-elev))**0.5)", rule="R-C08-1"),
     dict(name="exponent-one", file=CON, old="(2.0*9.81*(h-elev))**0.5)", new="(2.0*9.81*(h-elev))**1.0)", rule="R-C08-1"),
